@@ -116,6 +116,16 @@ C11_NothingOverdue(s) ==
     /\ \A i \in 1..Len(s.shards) : s.shards[i].status = SCompleted => ShardEnd(s.shards[i]) >= s.h
     /\ \A i \in 1..Len(s.metas) : s.metas[i].created + s.metas[i].dur >= s.h
 
+\* a hand-over in progress has something to take over: every migrating shard is listed together with a stored shard of the
+\* provider it migrates from (otherwise it is a task nobody can complete, unreachable from every schedule)
+C13_HandOverHasSource(s) ==
+    \A i \in 1..Len(s.shards) : LET m == s.shards[i] IN
+        m.status = SMigrating =>
+            \E k \in 1..Len(s.orders) : /\ InSeq(m.id, s.orders[k].shards)
+                                        /\ \E q \in 1..Len(s.orders[k].shards) :
+                                              LET id == s.orders[k].shards[q] IN
+                                              HasShard(s, id) /\ ShardOf(s, id).status = SCompleted /\ ShardOf(s, id).sp = m.from
+
 \* "when a model's last shard goes, the order and the data model disappear too": no fully stored order outlives its data
 \* model (an order is a reference to the model it stored a version of: one without a model is a dangling reference)
 C11_OrderGoesWithModel(s) ==
